@@ -92,8 +92,13 @@ NextSt(st, p, e) == <<st[1] + ELen(e), st[2] + Delay(p, e) + ETime(e)>>
 
 (* CostModel (sum aggregation): weights x vehicle rate x delta + weighted network surcharge, floored *)
 Pos(x) == IF x <= 0 THEN 0 ELSE x                         \* MIN_COST = 1e-10 is 0 in milli-units
+(* a vehicle rate is factor * change + offset, in the feature's own unit (od, ot: offsets; absent = 0); the offset is  *)
+(* charged once per rated change - once on the access part when there is a previous edge, once on the whole edge      *)
+Od == IF "od" \in DOMAIN scn THEN scn.od ELSE 0
+Ot == IF "ot" \in DOMAIN scn THEN scn.ot ELSE 0
 Veh(a, b) == (scn.wd * scn.rd * (b[1] - a[1]) * scn.cu[1]) \div scn.cu[2]       \* in milli-cost
              + (scn.wt * scn.rt * (b[2] - a[2]) * scn.cu[3]) \div scn.cu[4]
+             + K * (scn.wd * Od + scn.wt * Ot)
 Total(st, p, e) == Pos(Veh(st, NextSt(st, p, e)) + K * scn.wd * scn.sur[e])
 AccCost(st, p, e) == IF p = 0 THEN 0 ELSE Pos(Veh(st, AccSt(st, p, e)))
 TrvCost(st, p, e) == Total(st, p, e) - AccCost(st, p, e)
@@ -244,6 +249,9 @@ AtDone == DoneC01 /\ DoneC02 /\ DoneC03 /\ DoneC04 /\ DoneC05 /\ DoneC10
 (* C10 *)
 (* with an exhausted budget the search stops at the next scheduled check: it never gets past the first multiple of rtf
    at or after the test from which the exhaustion was observable *)
+(* the time budget as configured: "H:MM:SS" (hours of any length, two-digit minutes and seconds) is H hours, MM minutes *)
+(* and SS seconds, whatever the size of the fields                                                                   *)
+BudgetSeconds(h, m, s) == h * 3600 + m * 60 + s
 RtBound == (RtOn /\ exh >= 0) => iters <= ((exh + scn.rtf - 1) \div scn.rtf) * scn.rtf
 IterBound == scn.itl >= 0 => iters <= scn.itl
 SizeBound == scn.szl >= 0 =>
